@@ -20,6 +20,8 @@ pub enum Query {
     MapSummary,
     MapHasLineInfo,
     MapIsValid,
+    /// summary / has_line_info / is_valid / uuid of `mapping.section(0..k)`
+    MapSection(usize),
 }
 
 impl Query {
@@ -49,6 +51,7 @@ impl Query {
             Query::MapSummary => "mapping.summary()".into(),
             Query::MapHasLineInfo => "mapping.has_line_info()".into(),
             Query::MapIsValid => "mapping.is_valid()".into(),
+            Query::MapSection(k) => format!("mapping.section(0..{}).{{summary,has_line_info,is_valid,uuid}}()", k),
         }
     }
 
@@ -80,7 +83,7 @@ impl Query {
                 }
             }
             Query::TraceText(t) | Query::TraceTyped(t) | Query::Signature(t) => add(t),
-            Query::MapUuid | Query::MapSummary | Query::MapHasLineInfo | Query::MapIsValid => {}
+            Query::MapUuid | Query::MapSummary | Query::MapHasLineInfo | Query::MapIsValid | Query::MapSection(_) => {}
         }
     }
 
@@ -103,6 +106,7 @@ impl Query {
             Query::MapSummary => json!({"k":"map_summary"}),
             Query::MapHasLineInfo => json!({"k":"map_has_line_info"}),
             Query::MapIsValid => json!({"k":"map_is_valid"}),
+            Query::MapSection(k) => json!({"k":"map_section","end":k}),
         }
     }
 
@@ -126,6 +130,7 @@ impl Query {
             "map_summary" => Query::MapSummary,
             "map_has_line_info" => Query::MapHasLineInfo,
             "map_is_valid" => Query::MapIsValid,
+            "map_section" => Query::MapSection(v.get("end")?.as_u64()? as usize),
             _ => return None,
         })
     }
